@@ -32,7 +32,9 @@ def cases(draw):
         k = draw(st.integers(1, 6 if nsub == 1 else 4))
         msgs = [{"kind": draw(st.sampled_from(["req", "ans", "generic-req"])),
                  "size": draw(st.sampled_from([0, 1, 5, 100, 3000, 0, 1, 5, 100, 3000, 90000, 90000, 90000, 262100, 270000]))} for _ in range(k)]
-        subs.append({"msgs": msgs, "api": draw(st.sampled_from(["send_message", "send_message", "send_messages"]))})
+        # pause between two submissions of one thread (virtual seconds): several hand-overs to the transport instead of one batch
+        subs.append({"msgs": msgs, "api": draw(st.sampled_from(["send_message", "send_message", "send_messages"])),
+                     "gap": draw(st.sampled_from([0, 0, 0.004, 0.011, 0.03]))})
     pw = draw(st.sampled_from(["full", "full", "tiny", "random", "boundary"]))
     sizes = []
     if pw == "tiny":
@@ -95,12 +97,17 @@ def run_one(case):
         conc.apply_holds(w, case.get("holds"))
         done = []
 
+        def _sleep(d):
+            w.sched.point("sleep", pred=lambda: False, timeout=d)
+
         def submitter(si):
             def run():
                 if case["subs"][si]["api"] == "send_messages":
                     w.d.send_messages(msgs[si])
                 else:
-                    for m in msgs[si]:
+                    for j, m in enumerate(msgs[si]):
+                        if j and case["subs"][si].get("gap"):
+                            _sleep(case["subs"][si]["gap"])
                         w.d.send_message(m)
                 done.append(si)
             return run
@@ -202,6 +209,8 @@ def _collect(shard, seed, n):
     def body(case):
         vs, info = run_one(case)
         f = {"role=" + case["role"], f"submitters={len(case['subs'])}", "pw=" + case["pw"]}
+        if any(s_.get("gap") and len(s_["msgs"]) > 1 and s_["api"] == "send_message" for s_ in case["subs"]):
+            f.add("staggered-submissions")
         if info.get("partial_writes"):
             f.add("partial-write-happened")
         if case["inbound"]:
